@@ -166,9 +166,65 @@ fn gen_history_large(cfg: &Cfg, rng: &mut Rng, next_id: &mut u64) -> (Vec<Op>, b
     (ops, false)
 }
 
+/// History with *hot* keys: a small bounded cache whose residents collect hundreds or tens of
+/// thousands of hits (past what 8- and 16-bit counters hold, wrapping or saturating) before the
+/// overflow, so that the victim depends on the true counts.
+fn gen_history_hot(cfg: &Cfg, rng: &mut Rng, next_id: &mut u64) -> (Vec<Op>, bool) {
+    let n = cfg.limit.unwrap();
+    let wide = rng.chance(1, 12);
+    let profile: (usize, usize) = if wide { [(65_537, 2), (65_536, 3), (70_000, 66_000), (65_535 + 20, 65_535 + 5)][rng.usize(4)] } else { [(257, 2), (256, 1), (300, 260), (255 + 9, 255 + 3), (513, 258)][rng.usize(5)] };
+    let mut counts: Vec<usize> = vec![profile.0, profile.1];
+    while counts.len() < n {
+        counts.push(profile.0.max(profile.1) + 10 + counts.len());
+    }
+    // which key gets which count
+    for i in (1..counts.len()).rev() {
+        let j = rng.usize(i + 1);
+        counts.swap(i, j);
+    }
+    let mut ops = vec![];
+    for k in 0..n {
+        *next_id += 1;
+        ops.push(Op::Put(k as Key, 0, *next_id, 48, 0));
+    }
+    // hits in blocks, the blocks in random order, the last hit of each key at the very end in
+    // random order too (so recency and popularity are independent)
+    let mut order: Vec<usize> = (0..n).collect();
+    for i in (1..n).rev() {
+        let j = rng.usize(i + 1);
+        order.swap(i, j);
+    }
+    for &k in &order {
+        for _ in 0..counts[k] - 1 {
+            ops.push(Op::Get(k as Key));
+        }
+    }
+    for i in (1..n).rev() {
+        let j = rng.usize(i + 1);
+        order.swap(i, j);
+    }
+    for &k in &order {
+        ops.push(Op::Get(k as Key));
+    }
+    for i in 0..(1 + rng.usize(n)) {
+        *next_id += 1;
+        ops.push(Op::Put((n + i) as Key, 0, *next_id, 48, 0));
+        if rng.chance(1, 2) {
+            ops.push(Op::Get(rng.usize(n + i + 1) as Key));
+        }
+    }
+    for k in 0..2 * n {
+        ops.push(Op::Get(k as Key));
+    }
+    (ops, false)
+}
+
 fn gen_history(cfg: &Cfg, rng: &mut Rng, next_id: &mut u64) -> (Vec<Op>, bool) {
     if cfg.limit.map_or(false, |n| (100..100_000).contains(&n)) {
         return gen_history_large(cfg, rng, next_id);
+    }
+    if cfg.limit.map_or(false, |n| (2..=4).contains(&n)) && cfg.ttl.is_none() && cfg.max_memory.is_none() && rng.chance(1, 400) {
+        return gen_history_hot(cfg, rng, next_id);
     }
     let cap = cfg.limit.unwrap_or(if cfg.max_memory.is_some() { 4 } else { 3 }).min(5);
     let alphabet = cap + 1 + rng.usize(3);
@@ -648,6 +704,9 @@ fn main() {
             let cfg = &cfg_h;
             let mut ctx = Ctx { rep: &mut rep, cfg_index: ci, seed };
             let ok = run_history(&mut ctx, cfg, &ops, h as u64, false);
+            if cfg.limit.map_or(false, |n| n <= 4) && ops.len() > 500 {
+                rep.count(if matches!(cfg.policy, Policy::Fifo | Policy::Lru | Policy::Random) { "C07" } else { "C08" }, if ops.len() > 60_000 { "hot_key_histories_beyond_16_bit_counts" } else { "hot_key_histories_beyond_8_bit_counts" }, 1);
+            }
             if ok && !sampled && visited % 8 == 1 && h >= 1 {
                 sampled = true;
                 let s = json!({"cfg": cfg_json(cfg), "ops": ops.iter().take(40).map(op_json).collect::<Vec<_>>(), "ops_total": ops.len(), "verdict": "every step explained by the model"});
